@@ -30,6 +30,27 @@ theorem second_moment_sub_eq_cov (X : Mat N D K) (a b : Fin D) :
   field_simp
   ring
 
+/-- **shift identity**: the centred second moment about an ARBITRARY point `μ` is the covariance plus the rank-one term of
+    the offset `m − μ` (`m` the true mean).  With `μ = 0` this is the former one-pass formula `E[xxᵀ] − m mᵀ = Cov`
+    (`second_moment_sub_eq_cov`); with `μ = m` the extra term vanishes. -/
+theorem centred_moment_shift (X : Mat N D K) (μ : Vec D K) (hN : 0 < N) (a b : Fin D) :
+    (∑ i, (X i a - μ a) * (X i b - μ b)) / (N : K)
+      = cov X a b + (computeMean X a - μ a) * (computeMean X b - μ b) := by
+  have hN' : (N : K) ≠ 0 := Nat.cast_ne_zero.2 hN.ne'
+  rw [cov_apply]
+  simp only [computeMean_eq, sub_mul, mul_sub, Finset.sum_sub_distrib, ← Finset.sum_mul, ← Finset.mul_sum,
+    Finset.sum_const, Finset.card_univ, Fintype.card_fin, nsmul_eq_mul]
+  field_simp
+  ring
+
+/-- the centred samples sum to zero (what makes the two-pass form exact about the mean) -/
+theorem centred_sum_zero (X : Mat N D K) (hN : 0 < N) (a : Fin D) : ∑ i, (X i a - computeMean X a) = 0 := by
+  have hN' : (N : K) ≠ 0 := Nat.cast_ne_zero.2 hN.ne'
+  rw [Finset.sum_sub_distrib, computeMean_eq]
+  simp only [Finset.sum_const, Finset.card_univ, Fintype.card_fin, nsmul_eq_mul]
+  field_simp
+  ring
+
 /-- **the upper triangle built by `compute_covariance_matrix` is the sample covariance** -/
 theorem covarianceUpper_upper (X : Mat N D K) (a b : Fin D) (hab : a ≤ b) :
     covarianceUpper X (computeMean X) a b = cov X a b := by
